@@ -1,5 +1,9 @@
 import PlumpyModel.PM.Proof3
 import PlumpyModel.PM.Proof12
+import PlumpyModel.PM.Proof14
+import PlumpyModel.PM.Proof15
+import PlumpyModel.PM.Proof16
+import PlumpyModel.PM.Proof13
 import PlumpyModel.PM.LProof12
 import PlumpyModel.Status.Model
 /-!
@@ -9,10 +13,20 @@ Model: `PMF`.  Every activation of a step function or continuation is logged in 
 `paused` at the moment it starts.
 
 Transparency itself ("the executed steps, the context and the final result are those of the uninterrupted run") is proved
-below as a simulation (`C05_transparent_partial` and its corollaries; helper lemmas in `PM/Proof12.lean`) for histories of
-ticks, pause and play requests placed anywhere, and wake-up requests (`resume`, completion of an awaited future, its
-done-callback) placed at moments at which no pause is in effect (one may be requested).  The unrestricted statement
-is `C05_transparent_full`; the interleavings it adds are decided by the Python monitor `c05-transparent` only.
+below as a simulation between the run with pause/play requests and the run of its *reference history* (the same history
+without pause and play and without some of its ticks), for three nested classes of histories of ticks, pause and play requests
+placed anywhere, and wake-up requests (`resume`, completion of an awaited future, its done-callback, `call_soon`, a
+non-raising callback) placed
+* at moments at which no pause is in effect (`C05_transparent_partial`, `PM/Proof12.lean`);
+* also while the process is held by a pause on a wait (`C05_transparent_partial2`, `PM/Proof14.lean`);
+* also between a pause request that interrupted a pending wait and the next tick (`C05_transparent_partial3`,
+  `PM/Proof16.lean`; fuel hypothesis with one iteration of slack).
+Still excluded: wake-ups while the process is held at a step boundary in CREATED or RUNNING (the reference run is then ahead
+by the next step, and the wake-up has to be moved *before* the tick that ended the previous step), and histories with
+kill / fail / cancel / failing callbacks.  The unrestricted statement `C05_transparent_full` is **false** as it stands
+(`C05_transparent_full_false`, `PM/Proof15.lean`: a program that awaits one future under two context keys — the real
+`to_context` keeps one key per future); the statement to aim at is `C05_transparent_full_distinct`.  The interleavings outside
+the proved classes are decided by the Python monitor `c05-transparent` only.
 -/
 namespace PMF
 
@@ -180,8 +194,9 @@ theorem C05_reference_history_is_erasure (P : Prog) (c : Cfg) (evs : List Ev) :
     (unpaused P c evs).filter (fun e => !isTick e) = (erasePP evs).filter (fun e => !isTick e) :=
   ⟨unpaused_sublist P evs c, unpaused_no_pp P evs c, unpaused_nonticks P evs c⟩
 
-/-! the unrestricted statement (not proved): wake-up requests may arrive at any moment at which the run with pauses
-accepts them, also while a pause is requested or in effect -/
+/-! the unrestricted statement (refuted below for programs that await one future under two keys; open for the others):
+wake-up requests may arrive at any moment at which the run with pauses accepts them, also while a pause is requested or in
+effect -/
 
 /-- a request of the uninterrupted run that is effective in the run with pauses: a `resume` arrives while WAITING on a wait
 that has no outcome yet, an awaitable-done callback runs when it is scheduled -/
@@ -205,8 +220,9 @@ def admissibleFull (P : Prog) : Cfg → List Ev → Bool
   | _, [] => true
   | c, e :: es => evAllowedFull c e && admissibleFull P (step P c e).1 es
 
-/-- **transparency, full statement** (not proved; `C05_transparent_partial` / `C05_same_result_partial` prove it for the
-histories in which the wake-up requests arrive at quiet moments, with the reference history computed by `unpaused`):
+/-- **transparency, full statement** (FALSE as it stands: `C05_transparent_full_false`; see `C05_transparent_full_distinct`.
+`C05_transparent_partial` / `…_partial2` / `…_partial3` prove its instances for three nested classes of histories, with the
+reference history computed by `unpaused` / `unpaused2` / `unpaused3`):
 for every history of ticks, pause/play requests and effective wake-up requests there is a history without pause and play,
 with the same requests other than ticks, that ends in the same terminal state with the same trace and context.  For wake-ups
 that arrive while the run with pauses is held the reference history may have to deliver them later relative to its own
@@ -219,6 +235,196 @@ def C05_transparent_full : Prop :=
         (run P (init nf) evs').st = (run P (init nf) evs).st ∧
         (run P (init nf) evs').trace = (run P (init nf) evs).trace ∧
         (run P (init nf) evs').ctx = (run P (init nf) evs).ctx)
+
+/-- **the full statement is false as it stands**: `dupP` awaits ONE external future under TWO context keys (5 and 6) in one
+`ToContext` and then returns what the context holds under key 6.  In `dupHist` the wait is resumed, the future completes, and a
+pause holds the stepping task at the step boundary after the wait; the future's done-callback runs during the hold — as the
+callback of a state that was left it files the result under the LAST key registered (6), and the next step returns 3.  No
+history without pause and play that issues the same three requests (any order, any ticks) ends with result 3: run on the
+WAITING state the callback files the result under the FIRST key (5), run later it is too late for the step that reads the
+context (`dup_no_reference`, an exhaustive exploration of 44 configurations).  The real `to_context` keeps one key per future
+(a dict keyed by the future), so this is a property of the model outside the class of programs it is compared on, not of
+plumpy: on the real library both runs file the result under `k6` (DESIGN.md, C05).  The statement to aim at is
+`C05_transparent_full_distinct`. -/
+theorem C05_transparent_full_false : ¬ C05_transparent_full := by
+  intro h
+  obtain ⟨evs', _, h2, h3⟩ := h dupP 1 dupHist (by decide +kernel)
+  rw [dupHist_reqs] at h2
+  obtain ⟨hf, hne⟩ := dup_no_reference evs' h2
+  have := (h3 hf (by rw [dupHist_result]; decide)).1
+  rw [dupHist_result] at this
+  exact hne this
+
+example : ¬ B10.AwDistinct dupP := by
+  intro h
+  have := h 0 [] [] []
+  simp [dupP, B10.OutOk, B10.DistinctF] at this
+
+/-- **transparency, full statement for programs that never await the same future twice in one `ToContext`** (`AwDistinct`,
+the dict semantics of `Waiting._awaiting`).  Not proved: `C05_transparent_full_on_partial3` proves the instances in which the
+wake-ups arrive anywhere except while the process is held at a step boundary in CREATED or RUNNING, with the identity
+permutation.  An exhaustive search (Lean interpreter, all `admissibleFull` histories of length ≤ 11 of a two-wait workchain
+with synchronous and asynchronous steps, ≈ 170 000 terminated histories) found no counterexample, and none that needs a
+reordering of the requests: in the model, moving ticks suffices (in ≈ 20 000 of them the erasure `unpaused` does not work and
+a wake-up has to come *before* the tick that ended the previous step).  On the real library the loop is FIFO, so there the
+reference run may need the requests themselves reordered (DESIGN.md, C05). -/
+def C05_transparent_full_distinct : Prop :=
+  ∀ (P : Prog) (nf : Nat) (evs : List Ev), B10.AwDistinct P → admissibleFull P (init nf) evs = true →
+    ∃ evs' : List Ev, (∀ e ∈ evs', e ≠ .pause ∧ e ≠ .play) ∧
+      (evs'.filter (fun e => !isTick e)).Perm ((erasePP evs).filter (fun e => !isTick e)) ∧
+      (fuelOk P (init nf) evs' = true → terminal (run P (init nf) evs).st.label = true →
+        (run P (init nf) evs').st = (run P (init nf) evs).st ∧
+        (run P (init nf) evs').trace = (run P (init nf) evs).trace ∧
+        (run P (init nf) evs').ctx = (run P (init nf) evs).ctx)
+
+/-! ### second part: wake-ups that arrive while the process is held by a pause on a wait
+
+`admissible2` (helper lemmas in `PM/Proof14.lean`) admits a wake-up request also at a position at which the stepping task is
+suspended on a pause future (the process is held by a pause, or released by play and not yet woken) *and the state is WAITING
+on a wait without outcome* — and, once such a wake-up has arrived, every further one during the same hold (the flag `g` of
+`admissible2` / `unpaused2`, computed by `nextG`, remembers that).  The reference history `unpaused2` is again an erasure:
+it keeps the tick that wakes the stepping task from such a hold (both runs resume the wait at that tick).  The simulation
+relation `Sim2` adds the phase `LagW` to `Sim`: the run with pauses is suspended on a pause future at a step boundary in
+WAITING and the reference run is suspended on that wait — through the view `onWait` that is `InStep`. -/
+
+/-- **transparency (second partial class): the run with pauses is simulated by the run of its reference history.**
+As `C05_transparent_partial`, for the larger class `admissible2 P false`: ticks, `pause`, `play` anywhere; `resume` /
+`complete` / awaitable-done / `call_soon` / non-raising callback ticks at quiet positions (`quiet`) **and** at positions
+where the stepping task is suspended on a pause future with the process WAITING on a wait that has no outcome yet
+(`heldPc c && pendingWait c`), and at every later position of the same hold (`wakeOk`).  Still excluded, by
+`admissible2` (a decidable predicate on the history): wake-ups while the process is held at a step boundary in a state other
+than WAITING (CREATED, RUNNING: the reference run is already ahead by the next step); wake-ups between a pause request that
+interrupted a pending wait and the next tick (`waitInterrupted`); kill / fail / cancel / a failing callback. -/
+theorem C05_transparent_partial2 (P : Prog) (nf : Nat) (evs : List Ev)
+    (hadm : admissible2 P false (init nf) evs = true)
+    (hfuel : fuelOk P (init nf) (unpaused2 P false (init nf) evs) = true) :
+    ∃ g, Sim2 P g (run P (init nf) evs) (run P (init nf) (unpaused2 P false (init nf) evs)) :=
+  run_sim2 P evs false _ _ (sim2_init P nf) (invP_init nf) (inv_init nf) hadm hfuel
+
+/-- **same steps, same context, same result (second partial class)**: under the hypotheses of `C05_transparent_partial2`, if
+the run with pauses has terminated then the reference run (no pause, no play) has terminated in the same state object, with
+the same executed steps (functions, arguments, keyword arguments), context, process future, log of entered states, cleanups
+and — apart from paused/played — listener notifications; and nothing ran while paused. -/
+theorem C05_same_result_partial2 (P : Prog) (nf : Nat) (evs : List Ev)
+    (hadm : admissible2 P false (init nf) evs = true)
+    (hfuel : fuelOk P (init nf) (unpaused2 P false (init nf) evs) = true)
+    (hterm : terminal (run P (init nf) evs).st.label = true) :
+    (run P (init nf) (unpaused2 P false (init nf) evs)).st = (run P (init nf) evs).st ∧
+    (run P (init nf) (unpaused2 P false (init nf) evs)).trace = (run P (init nf) evs).trace ∧
+    (run P (init nf) (unpaused2 P false (init nf) evs)).ctx = (run P (init nf) evs).ctx ∧
+    (run P (init nf) (unpaused2 P false (init nf) evs)).fut = (run P (init nf) evs).fut ∧
+    (run P (init nf) (unpaused2 P false (init nf) evs)).entered = (run P (init nf) evs).entered ∧
+    (run P (init nf) (unpaused2 P false (init nf) evs)).cleanups = (run P (init nf) evs).cleanups ∧
+    (run P (init nf) (unpaused2 P false (init nf) evs)).notif.filter notPP = (run P (init nf) evs).notif.filter notPP ∧
+    (∀ a ∈ (run P (init nf) evs).trace, a.paused = false) := by
+  obtain ⟨g, hs⟩ := C05_transparent_partial2 P nf evs hadm hfuel
+  obtain ⟨h1, h2⟩ := hs.of_terminal hterm
+  obtain ⟨g1, g2, g3, g4, g5, g6, g7, g8, g9, g10, g11, g12, g13, g14, g15⟩ := sh_fields h2
+  exact ⟨h1, g12, g9, g2, g11, g5, g14, C05_nothing_runs_while_paused P nf evs⟩
+
+/-- **never ahead, never out of order (second partial class)**: at every moment of such a history the steps executed so far
+by the run with pauses are the older part of what the reference run has executed. -/
+theorem C05_never_ahead_partial2 (P : Prog) (nf : Nat) (evs : List Ev)
+    (hadm : admissible2 P false (init nf) evs = true)
+    (hfuel : fuelOk P (init nf) (unpaused2 P false (init nf) evs) = true) :
+    ∃ later, (run P (init nf) (unpaused2 P false (init nf) evs)).trace = later ++ (run P (init nf) evs).trace := by
+  obtain ⟨g, hs⟩ := C05_transparent_partial2 P nf evs hadm hfuel
+  exact hs.never_ahead
+
+/-- **the reference history of the second class is again an erasure**: a sublist of `erasePP evs` without pause and play whose
+events other than ticks are exactly those of `erasePP evs` in the same order — no wake-up has to be reordered, only ticks are
+dropped (in particular the instance of `C05_transparent_full` for these histories holds with the identity permutation). -/
+theorem C05_reference_history_is_erasure2 (P : Prog) (g : Bool) (c : Cfg) (evs : List Ev) :
+    (unpaused2 P g c evs).Sublist (erasePP evs) ∧
+    (∀ e ∈ unpaused2 P g c evs, e ≠ .pause ∧ e ≠ .play) ∧
+    (unpaused2 P g c evs).filter (fun e => !isTick e) = (erasePP evs).filter (fun e => !isTick e) :=
+  ⟨unpaused2_sublist P evs g c, unpaused2_no_pp P evs g c, unpaused2_nonticks P evs g c⟩
+
+/-- **the second class contains the first**: every history admitted by `C05_transparent_partial` is admitted by
+`C05_transparent_partial2`, with the same reference history. -/
+theorem C05_partial2_extends_partial (P : Prog) (c : Cfg) (evs : List Ev) (h : admissible P c evs = true) :
+    admissible2 P false c evs = true ∧ unpaused2 P false c evs = unpaused P c evs :=
+  admissible_sub P evs c h
+
+/-! ### third part: wake-ups between a pause request that interrupted a pending wait and the next tick
+
+`admissible3` (helper lemmas in `PM/Proof16.lean`) admits a wake-up request at *every* position at which the stepping task is
+not suspended on a pause future — the quiet ones and those at which the current wait carries the interruption of a pause
+request that the stepping task has still to notice (the wake-up is then parked on the state object and put on the re-armed
+wait at the next tick) — and at the held positions of `admissible2`.  The reference history `unpaused3` drops, in addition,
+the tick at which the stepping task re-arms an interrupted wait and is then held by the pause.  The relation `Sim3` replaces
+the phase `QW` by `QW2` (through the view `unint` — interruption removed, parked wake-up on the future — it is `InStep`).
+When `play` retracted the pause before that tick, the run with pauses resumes its wait one loop iteration later than the
+reference run in the same tick: the fuel hypothesis is `fuelOkN … (fuel0 - 1)`, one iteration of slack. -/
+
+/-- **transparency (third partial class): the run with pauses is simulated by the run of its reference history.**
+For every program and every history of ticks, `pause`, `play` anywhere and `resume` / `complete` / awaitable-done /
+`call_soon` / non-raising callback ticks at every position accepted by `admissible3 P false` (`wakeOk3`), i.e. at all
+positions except those at which the stepping task is suspended on a pause future (held by a pause, or released and not yet
+woken), no wake-up has been accepted during this hold (and the hold did not begin with the re-arming of an interrupted
+wait), and the state is not WAITING on a wait without outcome — in reachable configurations: the process is held at a step
+boundary in CREATED or RUNNING, where the reference run is already ahead by the next step.  No kill / fail / cancel / failing
+callback.  The fuel hypothesis is the one of `C05_transparent_partial` with one loop iteration of slack. -/
+theorem C05_transparent_partial3 (P : Prog) (nf : Nat) (evs : List Ev)
+    (hadm : admissible3 P false (init nf) evs = true)
+    (hfuel : fuelOkN P (fuel0 - 1) (init nf) (unpaused3 P false (init nf) evs) = true) :
+    ∃ g, Sim3 P g (run P (init nf) evs) (run P (init nf) (unpaused3 P false (init nf) evs)) :=
+  run_sim3 P evs false _ _ (sim3_init P nf) (invP_init nf) (inv_init nf) hadm hfuel
+
+/-- **same steps, same context, same result (third partial class)**: under the hypotheses of `C05_transparent_partial3`, if
+the run with pauses has terminated then the reference run (no pause, no play, the same other requests in the same order) has
+terminated in the same state object, with the same executed steps, context, process future, log of entered states, cleanups
+and — apart from paused/played — listener notifications; and nothing ran while paused. -/
+theorem C05_same_result_partial3 (P : Prog) (nf : Nat) (evs : List Ev)
+    (hadm : admissible3 P false (init nf) evs = true)
+    (hfuel : fuelOkN P (fuel0 - 1) (init nf) (unpaused3 P false (init nf) evs) = true)
+    (hterm : terminal (run P (init nf) evs).st.label = true) :
+    (run P (init nf) (unpaused3 P false (init nf) evs)).st = (run P (init nf) evs).st ∧
+    (run P (init nf) (unpaused3 P false (init nf) evs)).trace = (run P (init nf) evs).trace ∧
+    (run P (init nf) (unpaused3 P false (init nf) evs)).ctx = (run P (init nf) evs).ctx ∧
+    (run P (init nf) (unpaused3 P false (init nf) evs)).fut = (run P (init nf) evs).fut ∧
+    (run P (init nf) (unpaused3 P false (init nf) evs)).entered = (run P (init nf) evs).entered ∧
+    (run P (init nf) (unpaused3 P false (init nf) evs)).cleanups = (run P (init nf) evs).cleanups ∧
+    (run P (init nf) (unpaused3 P false (init nf) evs)).notif.filter notPP = (run P (init nf) evs).notif.filter notPP ∧
+    (∀ a ∈ (run P (init nf) evs).trace, a.paused = false) := by
+  obtain ⟨g, hs⟩ := C05_transparent_partial3 P nf evs hadm hfuel
+  obtain ⟨h1, h2⟩ := hs.of_terminal hterm
+  obtain ⟨g1, g2, g3, g4, g5, g6, g7, g8, g9, g10, g11, g12, g13, g14, g15⟩ := sh_fields h2
+  exact ⟨h1, g12, g9, g2, g11, g5, g14, C05_nothing_runs_while_paused P nf evs⟩
+
+/-- **never ahead, never out of order (third partial class)** -/
+theorem C05_never_ahead_partial3 (P : Prog) (nf : Nat) (evs : List Ev)
+    (hadm : admissible3 P false (init nf) evs = true)
+    (hfuel : fuelOkN P (fuel0 - 1) (init nf) (unpaused3 P false (init nf) evs) = true) :
+    ∃ later, (run P (init nf) (unpaused3 P false (init nf) evs)).trace = later ++ (run P (init nf) evs).trace := by
+  obtain ⟨g, hs⟩ := C05_transparent_partial3 P nf evs hadm hfuel
+  exact hs.never_ahead
+
+/-- **the instance of the full statement for the third class**: for these histories the reference history required by
+`C05_transparent_full` exists and is an erasure — no pause, no play, the other requests in their original order (the
+permutation is the identity), a sublist of `erasePP evs`. -/
+theorem C05_transparent_full_on_partial3 (P : Prog) (nf : Nat) (evs : List Ev)
+    (hadm : admissible3 P false (init nf) evs = true) :
+    ∃ evs' : List Ev, evs'.Sublist (erasePP evs) ∧ (∀ e ∈ evs', e ≠ .pause ∧ e ≠ .play) ∧
+      evs'.filter (fun e => !isTick e) = (erasePP evs).filter (fun e => !isTick e) ∧
+      (fuelOkN P (fuel0 - 1) (init nf) evs' = true → terminal (run P (init nf) evs).st.label = true →
+        (run P (init nf) evs').st = (run P (init nf) evs).st ∧
+        (run P (init nf) evs').trace = (run P (init nf) evs).trace ∧
+        (run P (init nf) evs').ctx = (run P (init nf) evs).ctx) := by
+  refine ⟨unpaused3 P false (init nf) evs, unpaused3_sublist P evs false _, unpaused3_no_pp P evs false _,
+    unpaused3_nonticks P evs false _, ?_⟩
+  intro hf ht
+  obtain ⟨h1, h2, h3, _⟩ := C05_same_result_partial3 P nf evs hadm hf ht
+  exact ⟨h1, h2, h3⟩
+
+/-- **the third class contains the second** (and hence the first) -/
+theorem C05_partial3_extends_partial2 (P : Prog) (c : Cfg) (evs : List Ev) (h : admissible2 P false c evs = true) :
+    admissible3 P false c evs = true :=
+  admissible2_sub3 P evs false false c id h
+
+/-- the fuel hypothesis with slack implies the plain one -/
+theorem C05_fuel_slack (P : Prog) (c : Cfg) (evs : List Ev) (h : fuelOkN P (fuel0 - 1) c evs = true) : fuelOk P c evs = true :=
+  fuelOkN_le P _ fuel0_pred_le evs c h
 
 -- non-vacuity: a pause takes effect at the step boundary, the continuation only runs after play
 section
@@ -269,6 +475,58 @@ example : admissible wc2 (init 1) wc2Hist = true := by decide +kernel
 example : unpaused wc2 (init 1) wc2Hist = [.tick, .complete 0 (.result 3), .tick, .tickCb (.adone 0), .tick] := by decide +kernel
 example : fuelOk wc2 (init 1) (unpaused wc2 (init 1) wc2Hist) = true := by decide +kernel
 example : (run wc2 (init 1) wc2Hist).st = .finished (some 3) true := by decide +kernel
+-- second class: `resume` arrives while the process is held by a pause on its wait (rejected by `admissible`), the hold is
+-- prolonged by a second pause, a tick of the held task, play; three steps executed, the resume value ends as the result
+private def wtHist2 : List Ev :=
+  [.tick, .pause, .tick, .resume (some 7), .tick, .pause, .play, .pause, .tick, .play, .tick, .tick]
+example : admissible wt (init 0) wtHist2 = false := by decide +kernel
+example : admissible2 wt false (init 0) wtHist2 = true := by decide +kernel
+example : unpaused2 wt false (init 0) wtHist2 = [.tick, .tick, .resume (some 7), .tick, .tick] := by decide +kernel
+example : fuelOk wt (init 0) (unpaused2 wt false (init 0) wtHist2) = true := by decide +kernel
+example : (run wt (init 0) wtHist2).st = .finished (some 7) true := by decide +kernel
+example : (run wt (init 0) wtHist2).trace.length = 3 := by decide +kernel
+-- second class, workchain: both awaited futures complete, their done-callbacks and a `call_soon` callback run while the
+-- process is held on the wait; the results land in the context, the step after the wait reads one of them
+private def wc3 : Prog := fun fn _ _ ctx =>
+  match fn with
+  | 0 => ⟨1, .ret (.waitOn 1 [(0, 5), (1, 6)])⟩
+  | _ => ⟨0, .ret (.stop ((ctx.find? (·.1 = 5)).map (·.2)) true)⟩
+private def wc3Hist : List Ev :=
+  [.tick, .pause, .tick, .complete 0 (.result 3), .tickCb (.adone 0), .callSoon false, .complete 1 (.result 4), .tick,
+   .tickCb (.usercb false), .tickCb (.adone 1), .play, .tick]
+example : admissible wc3 (init 2) wc3Hist = false := by decide +kernel
+example : admissible2 wc3 false (init 2) wc3Hist = true := by decide +kernel
+example : fuelOk wc3 (init 2) (unpaused2 wc3 false (init 2) wc3Hist) = true := by decide +kernel
+example : (run wc3 (init 2) wc3Hist).st = .finished (some 3) true := by decide +kernel
+example : (run wc3 (init 2) wc3Hist).ctx = [(6, 4), (5, 3)] := by decide +kernel
+example : (run wc3 (init 2) wc3Hist).trace.length = 2 := by decide +kernel
+-- third class: a pause request interrupts the pending wait, `resume` is parked on the interrupted wait (rejected by
+-- `admissible2`); (a) the pause takes effect at the next tick, the process is held with the outcome already there, play, tick;
+-- (b) play retracts the pause first, the next tick re-arms the wait and resumes it at once
+private def qHistA : List Ev := [.tick, .tick, .pause, .resume (some 7), .tick, .tick, .play, .tick, .tick]
+private def qHistB : List Ev := [.tick, .tick, .pause, .resume (some 7), .play, .tick, .tick]
+example : admissible2 wt false (init 0) qHistA = false ∧ admissible2 wt false (init 0) qHistB = false := by decide +kernel
+example : admissible3 wt false (init 0) qHistA = true ∧ admissible3 wt false (init 0) qHistB = true := by decide +kernel
+example : unpaused3 wt false (init 0) qHistA = [.tick, .tick, .resume (some 7), .tick, .tick] := by decide +kernel
+example : unpaused3 wt false (init 0) qHistB = [.tick, .tick, .resume (some 7), .tick, .tick] := by decide +kernel
+example : fuelOkN wt (fuel0 - 1) (init 0) (unpaused3 wt false (init 0) qHistA) = true := by decide +kernel
+example : fuelOkN wt (fuel0 - 1) (init 0) (unpaused3 wt false (init 0) qHistB) = true := by decide +kernel
+example : (run wt (init 0) qHistA).st = .finished (some 7) true ∧ (run wt (init 0) qHistA).trace.length = 3 := by decide +kernel
+example : (run wt (init 0) qHistB).st = .finished (some 7) true ∧ (run wt (init 0) qHistB).trace.length = 3 := by decide +kernel
+-- third class, workchain: the pause request interrupts the wait on two futures; both complete and their done-callbacks run
+-- before the stepping task notices (the second one parks the wake-up); held, a `call_soon` while held, play
+private def wc4 : Prog := fun fn _ _ ctx =>
+  match fn with
+  | 0 => ⟨0, .ret (.waitOn 1 [(0, 5), (1, 6)])⟩
+  | _ => ⟨0, .ret (.stop ((ctx.find? (·.1 = 5)).map (·.2)) true)⟩
+private def wc4Hist : List Ev :=
+  [.tick, .complete 0 (.result 3), .pause, .tickCb (.adone 0), .complete 1 (.result 4), .tickCb (.adone 1), .tick,
+   .callSoon false, .play, .tick, .tickCb (.usercb false)]
+example : admissible2 wc4 false (init 2) wc4Hist = false := by decide +kernel
+example : admissible3 wc4 false (init 2) wc4Hist = true := by decide +kernel
+example : fuelOkN wc4 (fuel0 - 1) (init 2) (unpaused3 wc4 false (init 2) wc4Hist) = true := by decide +kernel
+example : (run wc4 (init 2) wc4Hist).st = .finished (some 3) true ∧ (run wc4 (init 2) wc4Hist).ctx = [(6, 4), (5, 3)] := by
+  decide +kernel
 end
 /-!
 ## pause / play requested DURING a transition (listeners, state-event callbacks)
